@@ -158,7 +158,9 @@ func runCheck(args []string) int {
 		return runSelftest(&spec)
 	}
 	t0 := time.Now()
+	eng.CrossCheck = tier == "thorough"
 	run, err := executeSpec(&spec, tier, nil)
+	eng.CrossCheck = false
 	if err != nil {
 		fmt.Fprintln(os.Stderr, "ENGINE-ERROR:", err)
 		return 2
@@ -560,6 +562,7 @@ func report(spec *CheckSpec, rr *runResult, tier string, seed int, t0 time.Time)
 			"undecided_clauses":        spec.Undecided,
 			"analyses":                 analyses,
 			"known_findings_reported":  len(lines) - violations,
+			"solver_cross_check":                 crossCheckEvidence(tier),
 			"callee_contracts_verified_here":     usedHere,
 			"callee_contracts_verified_by_other_checks": usedOther,
 			"callee_contracts_assumed":           usedAssumed,
@@ -751,4 +754,17 @@ func unexportedFunc(key string) bool {
 		return false
 	}
 	return name[0] >= 'a' && name[0] <= 'z'
+}
+
+// crossCheckEvidence: in the thorough tier every query is answered by every solver separately.
+func crossCheckEvidence(tier string) interface{} {
+	if tier != "thorough" {
+		return "quick tier: solvers are raced, the first unsat or sat answer decides"
+	}
+	return map[string]interface{}{
+		"queries":                       eng.CrossStats.Queries,
+		"unsat_by_two_or_more_solvers":  eng.CrossStats.UnsatByTwoOrMore,
+		"unsat_by_a_single_solver":      eng.CrossStats.UnsatBySingleSolver,
+		"sat_and_unsat_on_the_same_query": eng.CrossStats.Disagreements,
+	}
 }
